@@ -187,8 +187,12 @@ def load_case(case):
         for ri, r in enumerate(s3.residues):
             noise[ri] = rng.normal(0.0, 1.0, size=(len(r.atoms), 3)) * sigma
             dropmask[ri] = rng.random(len(r.atoms)) < drop_atoms
-        return gen3d.rebuild(s3, keep=keep, point_fn=lambda xyz, ri, k: R @ (xyz + noise[ri][k]) + t,
-                             atom_keep=(lambda ri, k: not dropmask[ri][k]) if drop_atoms else None)
+        out = gen3d.rebuild(s3, keep=keep, point_fn=lambda xyz, ri, k: R @ (xyz + noise[ri][k]) + t,
+                            atom_keep=(lambda ri, k: not dropmask[ri][k]) if drop_atoms else None)
+        if case.get("identity"):
+            # residues identified by label items only (auth is None) or author items only (label is None)
+            out = gen3d.one_identity(out, case["identity"])
+        return out
     raise HarnessError(kind)
 
 
@@ -247,6 +251,7 @@ def st_moved(files):
         "noise_seed": st.integers(0, 2 ** 31),
         "drop_residues": st.lists(st.integers(0, 10 ** 6), max_size=4),
         "drop_atoms": st.sampled_from([0.0, 0.0, 0.02, 0.1]),
+        "identity": st.sampled_from([None, None, "label-only", "auth-only"]),
     })
 
 
